@@ -19,7 +19,7 @@
 
 typedef struct { int32_t status, code, aux; uint64_t mh; double v[3]; } tm_res;
 static xv_req *tm_rq; static long tm_n; static tm_res *tm_ref;
-static int tm_threads = 8; static long tm_calls = 20000; static int tm_yield = 20;
+static int tm_threads = 8; static long tm_calls = 20000; static int tm_yield = 20; static long tm_first = -1; static pthread_barrier_t tm_bar;
 
 /* ---------------------------------------------------------------- overlap monitor (hook callback) */
 #define NREG 4   /* 0 parser, 1 locale window, 2 compound body, 3 crystal copy */
@@ -83,8 +83,9 @@ static void *tm_worker(void *p) {
   tm_targ *a = (tm_targ *)p; long k; xrl_error *slot = NULL;
   tm_tid = a->tid; tm_rng.s = tm_seed * 0x9E3779B97F4A7C15ULL + (uint64_t)(a->tid + 1) * 0xD1B54A32D192ED03ULL;
   a->first_bad_req = -1;
+  pthread_barrier_wait(&tm_bar);        /* all threads enter the library at the same moment */
   for (k = 0; k < tm_calls; k++) {
-    long q = (long)(xv_next(&tm_rng) % (uint64_t)tm_n); tm_res o; xrl_error *e = NULL;
+    long q = (k == 0 && tm_first >= 0 && tm_first < tm_n) ? tm_first : (long)(xv_next(&tm_rng) % (uint64_t)tm_n); tm_res o; xrl_error *e = NULL;
     tm_exec(&tm_rq[q], &o, &e); a->calls++;
     if (!tm_same(&o, &tm_ref[q])) { a->mismatches++; if (a->first_bad_req < 0) { a->first_bad_req = q; a->bad = o; } }
     if (e) {
@@ -110,6 +111,7 @@ int main(int argc, char **argv) {
   if (argc < 5 || strcmp(argv[1], "run")) { fprintf(stderr, "usage: thrmon run req str report [--threads N --calls M --yield P]\n"); return 2; }
   for (a = 5; a < argc; a++) {
     if (!strcmp(argv[a], "--ref") && a + 2 < argc) { refresp = argv[++a]; refmsg = argv[++a]; }
+    else if (!strcmp(argv[a], "--first") && a + 1 < argc) tm_first = atol(argv[++a]);
     else if (!strcmp(argv[a], "--threads") && a + 1 < argc) tm_threads = atoi(argv[++a]);
     else if (!strcmp(argv[a], "--calls") && a + 1 < argc) tm_calls = atol(argv[++a]);
     else if (!strcmp(argv[a], "--yield") && a + 1 < argc) tm_yield = atoi(argv[++a]);
@@ -146,6 +148,7 @@ int main(int argc, char **argv) {
   }
   xrl_verif_hook = tm_hook;
   th = calloc(tm_threads, sizeof *th); ta = calloc(tm_threads, sizeof *ta);
+  pthread_barrier_init(&tm_bar, NULL, tm_threads);
   for (t = 0; t < tm_threads; t++) { ta[t].tid = t; if (pthread_create(&th[t], NULL, tm_worker, &ta[t])) return 2; }
   for (t = 0; t < tm_threads; t++) pthread_join(th[t], NULL);
   xrl_verif_hook = NULL;
@@ -153,8 +156,9 @@ int main(int argc, char **argv) {
   fprintf(f, "{\"threads\":%d,\"requests\":%ld,\"cold\":%d,\"serial_nondeterministic\":%ld,\"locale\":\"%s\",\"bad\":[", tm_threads, tm_n, cold, nondet, setlocale(LC_ALL, NULL));
   for (t = 0, a = 0; t < tm_threads; t++) { total += ta[t].calls; mism += ta[t].mismatches; errs += ta[t].errors; errapi += ta[t].errapi;
     if (ta[t].first_bad_req >= 0) { const tm_res *r = &tm_ref[ta[t].first_bad_req], *b = &ta[t].bad;
-      fprintf(f, "%s{\"thread\":%d,\"request\":%ld,\"fn\":%d,\"ref\":[%d,%d,%.17g,%.17g],\"got\":[%d,%d,%.17g,%.17g]}", a++ ? "," : "", t, ta[t].first_bad_req, tm_rq[ta[t].first_bad_req].fn,
-              r->status, r->code, isfinite(r->v[0]) ? r->v[0] : -9e99, isfinite(r->v[1]) ? r->v[1] : -9e99, b->status, b->code, isfinite(b->v[0]) ? b->v[0] : -9e99, isfinite(b->v[1]) ? b->v[1] : -9e99); } }
+      /* values as bit patterns: printf of a double follows the process locale (decimal comma under xx_VERIF) */
+      fprintf(f, "%s{\"thread\":%d,\"request\":%ld,\"fn\":%d,\"ref\":[%d,%d,\"%016llx\",\"%016llx\"],\"got\":[%d,%d,\"%016llx\",\"%016llx\"]}", a++ ? "," : "", t, ta[t].first_bad_req, tm_rq[ta[t].first_bad_req].fn,
+              r->status, r->code, (unsigned long long)xv_bits(r->v[0]), (unsigned long long)xv_bits(r->v[1]), b->status, b->code, (unsigned long long)xv_bits(b->v[0]), (unsigned long long)xv_bits(b->v[1])); } }
   fprintf(f, "],\"calls\":%ld,\"mismatches\":%ld,\"failing_calls\":%ld,\"error_api_uses\":%ld,\"hook_events\":%ld,\"yields\":%ld,\"enter\":[", total, mism, errs, errapi, (long)atomic_load(&tm_events), (long)atomic_load(&tm_yields));
   for (k = 0; k <= NREG; k++) fprintf(f, "%s%ld", k ? "," : "", (long)atomic_load(&tm_enter[k]));
   fprintf(f, "],\"overlap\":[");
